@@ -757,12 +757,20 @@ pub fn kcgr_huge_output(ctx: &Ctx) -> Stats {
     let mut st = Stats::new();
     let mut rng = Rng::keyed(ctx.seed, "c12.huge_output", 0);
     let k = 7usize;
-    let nrec = 5_100usize;
-    let recs: Vec<Rec> = (0..nrec).map(|i| Rec { id: format!("g{}", i), desc: None, seq: (0..60 + (i % 11)).map(|_| *rng.pick(b"ACGT")).collect() }).collect();
     let sc = Scratch::new(ctx, "c12huge");
+    // measure the size of a row on 40 records first, then take as many records as give ~2.4 GiB in one batch
+    let probe: Vec<Rec> = (0..40).map(|i| Rec { id: format!("p{}", i), desc: None, seq: (0..60 + (i % 11)).map(|_| *rng.pick(b"ACGT")).collect() }).collect();
+    let pin = sc.write("probe.fa", &ser::to_fasta(&probe, &SerOpts::plain()));
+    let row_bytes = match run_kcgr(&pin, &sc.path("probe.out"), k, 16, true, 4, 4 << 30) {
+        Ok(d) => (d.len() / probe.len()).max(1),
+        Err(_) => 230_000,
+    };
+    let nrec = ((2_400usize << 20) / row_bytes + 50).min(40_000);
+    st.set_extra("row_bytes", Json::u(row_bytes));
+    let recs: Vec<Rec> = (0..nrec).map(|i| Rec { id: format!("g{}", i), desc: None, seq: (0..60 + (i % 11)).map(|_| *rng.pick(b"ACGT")).collect() }).collect();
     let inp = sc.write("in.fa", &ser::to_fasta(&recs, &SerOpts::plain()));
     let outp = sc.path("out.kcgr");
-    let case = Json::obj().set("layout", Json::s("5100 random ACGT records of 60..70 bases, k=7, S=16, normalised, one batch; records not stored"));
+    let case = Json::obj().set("layout", Json::s(format!("{} random ACGT records of 60..70 bases, k=7, S=16, normalised, one batch (~{} bytes per row); records not stored", nrec, row_bytes)));
     note_current_case(ctx, &case);
     st.case(true, 1);
     st.sample(case.clone());
